@@ -206,6 +206,7 @@ impl DOPRI5 {
         let mut k5 = vec![0.0; n];
         let mut k6 = vec![0.0; n];
         let mut y1 = vec![0.0; n];
+        let mut ysti = vec![0.0; n];
         let mut cont = vec![0.0; n * 5];
         let mut facold: Float = 1e-4;
         let mut last = false;
@@ -308,14 +309,14 @@ impl DOPRI5 {
             }
             f.ode(x + C5 * h, &y1, &mut k5);
 
-            // Stage 6 (ysti)
+            // Stage 6 (ysti): kept for the stiffness detection, which runs after k2 and k4 are overwritten
             for i in 0..n {
-                y1[i] =
+                ysti[i] =
                     y[i] + h * (A61 * k1[i] + A62 * k2[i] + A63 * k3[i] + A64 * k4[i] + A65 * k5[i]);
             }
             // The last step lands on xend itself: x + (xend - x) can miss it by a rounding error
             xph = if last { xend } else { x + h };
-            f.ode(xph, &y1, &mut k6);
+            f.ode(xph, &ysti, &mut k6);
 
             // Final stage
             for i in 0..n {
@@ -371,9 +372,7 @@ impl DOPRI5 {
                     let mut stden = 0.0_f64;
                     for i in 0..n {
                         let d1 = k2[i] - k6[i];
-                        let ysti = y[i]
-                            + h * (A61 * k1[i] + A62 * k2[i] + A63 * k3[i] + A64 * k4[i] + A65 * k5[i]);
-                        let d2 = y1[i] - ysti;
+                        let d2 = y1[i] - ysti[i];
                         stnum += d1 * d1;
                         stden += d2 * d2;
                     }
